@@ -1,4 +1,4 @@
-import ChythonModel.Proofs.C17WF
+import ChythonModel.Proofs.C17EquivTop
 /-!
 # C17 — fingerprints are structure functions with the documented fragment semantics
 
@@ -107,5 +107,192 @@ theorem morgan_bits_lt_length (H : TupleHash) (m : Mol) (lo hi length nab : Int)
 theorem bit_set_rejects_nonpositive_length (H : TupleHash) (m : Mol) (lo hi length nab nbp : Int) (hl : length ≤ 0) :
     linearBitSet H m lo hi length nab nbp = .error .valueError ∧ morganBitSet H m lo hi length nab = .error .valueError := by
   simp [linearBitSet, morganBitSet, hl, bind, Except.bind, throw, throwThe, MonadExceptOf.throw]
+
+/-! ## the fragment dictionary (`_fragments`) and `linear_hash_set` -/
+
+/-- on a well-formed molecule `_fragments` raises no `KeyError` -/
+theorem fragments_total (H : TupleHash) (m : Mol) (hwf : m.WF = true) (lo hi : Int) (h1 : 1 ≤ lo) (h2 : lo ≤ hi) :
+    ∃ d, fragments H m lo hi = .ok d := by
+  obtain ⟨cs, _, hd⟩ := fragments_eq H m hwf lo hi h1 h2
+  exact ⟨_, hd⟩
+
+/-- **fragments_count** — keys are distinct; every simple path of the window has its key (`fragKey`: the label sequence
+    read in its larger direction) in the dict; and the list stored under a key `K` holds, each read in the direction that
+    spells `K`, exactly one entry per *undirected* simple path of the window whose key is `K`
+    (`ps.map canon` is duplicate free and its members are exactly the canonical forms of those paths — palindromic
+    label sequences are not double counted). -/
+theorem fragments_count (H : TupleHash) (m : Mol) (hwf : m.WF = true) (lo hi : Int) (h1 : 1 ≤ lo) (h2 : lo ≤ hi)
+    (d : FragDict) (h : fragments H m lo hi = .ok d) :
+    (d.map (·.1)).Nodup ∧
+    (∀ p, SimplePath m p → lo ≤ (p.length : Int) → (p.length : Int) ≤ hi → ∃ ps, (fragKey H m p, ps) ∈ d) ∧
+    ∀ K ps, (K, ps) ∈ d →
+      (∀ q ∈ ps, labelSeq H m q = K) ∧ (ps.map canon).Nodup ∧
+      ∀ x, x ∈ ps.map canon ↔
+        ∃ p, SimplePath m p ∧ lo ≤ (p.length : Int) ∧ (p.length : Int) ≤ hi ∧ fragKey H m p = K ∧ x = canon p :=
+  fragments_struct H m hwf lo hi h1 h2 d h
+
+example : ∃ d, fragments Py.pyHashTuple exMol 1 3 = .ok d ∧ d.length = 6 ∧ (d.map (·.2.length)) = [3, 1, 2, 1, 2, 1] :=
+  ⟨_, rfl, by decide, by decide⟩
+
+/-- the key does not depend on the direction in which the path is read -/
+theorem fragKey_direction_free (H : TupleHash) (m : Mol) (hwf : m.WF = true) (p : Path) :
+    fragKey H m p.reverse = fragKey H m p := fragKey_reverse H m hwf p
+
+/-- **multiplicity_cap** — a fragment found `n` times contributes `hash((*key, cnt))` for exactly the counts
+    `cnt < min(n, number_bit_pairs)`; with `number_bit_pairs = 0` the cap is the code's sentinel 999 999 999
+    ("all repeats" for every molecule with fewer occurrences than that) -/
+theorem multiplicity_cap (H : TupleHash) (nbp : Int) (d : FragDict) (x : Int) :
+    x ∈ hashesOfDict H nbp d ↔ ∃ K ps, (K, ps) ∈ d ∧ ∃ cnt : Nat, cnt < ps.length ∧
+      (if nbp = 0 then cnt < 999999999 else (cnt : Int) < nbp) ∧ x = H (K ++ [(cnt : Int)]) :=
+  mem_hashesOfDict H nbp d x
+
+/-- `linear_hash_set` is `hashesOfDict` of the fragment dict (and raises nothing on a well-formed molecule) -/
+theorem linear_hash_set_exact (H : TupleHash) (m : Mol) (hwf : m.WF = true) (lo hi nbp : Int) (h1 : 1 ≤ lo) (h2 : lo ≤ hi) :
+    ∃ d, fragments H m lo hi = .ok d ∧ linearHashSet H m lo hi nbp = .ok (hashesOfDict H nbp d) := by
+  obtain ⟨d, hd⟩ := fragments_total H m hwf lo hi h1 h2
+  exact ⟨d, hd, by simp [linearHashSet, hd, bind, Except.bind, pure, Except.pure]⟩
+
+/-! ## Morgan identifiers (`_morgan_hash_dict`, `morgan_hash_set`) -/
+
+/-- **morgan_layers** — for `1 ≤ lo ≤ hi` the result is the list of the identifier dicts of radii `lo … hi`, where the
+    radius-`r+1` identifier of an atom is `ecIdent r`: `r` rounds of "hash of own identifier followed by the sorted
+    (bond order, neighbour identifier) pairs" starting from the atom identifiers -/
+theorem morgan_layers (H : TupleHash) (m : Mol) (hwf : m.WF = true) (lo hi : Int) (h1 : 1 ≤ lo) (h2 : lo ≤ hi) :
+    morganHashDict H m lo hi =
+      .ok ((List.range' (lo - 1).toNat (hi - lo + 1).toNat).map fun i => m.ids.map fun x => (x, ecIdent H m i x)) :=
+  morganHashDict_ok H m hwf lo hi h1 h2
+
+/-- the radius asserts -/
+theorem morgan_rejects_bad_radii (H : TupleHash) (m : Mol) (lo hi : Int) (h : lo < 1 ∨ hi < lo) :
+    morganHashDict H m lo hi = .error .assertionError := by
+  unfold morganHashDict
+  by_cases e : lo < 1
+  · simp [e, bind, Except.bind, throw, throwThe, MonadExceptOf.throw]
+  · have : hi < lo := by omega
+    simp [e, this, bind, Except.bind, throw, throwThe, MonadExceptOf.throw]
+
+/-- **morgan_hash_set_exact** — the set of the neighbourhood identifiers of all atoms for the radii `lo … hi` -/
+theorem morgan_hash_set_exact (H : TupleHash) (m : Mol) (hwf : m.WF = true) (lo hi : Int) (h1 : 1 ≤ lo) (h2 : lo ≤ hi)
+    (hs : List Int) (h : morganHashSet H m lo hi = .ok hs) (x : Int) :
+    x ∈ hs ↔ ∃ r : Nat, lo ≤ (r : Int) + 1 ∧ (r : Int) + 1 ≤ hi ∧ ∃ a ∈ m.ids, x = ecIdent H m r a :=
+  mem_morganHashSet H m hwf lo hi h1 h2 hs h x
+
+example : ∃ hs, morganHashSet Py.pyHashTuple exMol 1 2 = .ok hs := ⟨_, rfl⟩
+
+/-! ## independence of numbering and of insertion order — for every hash function -/
+
+/-- `exMol` renumbered by `x ↦ 10 − x`, atoms and neighbour dicts inserted in another order -/
+def exMol' : Mol :=
+  let c : Atom := { z := 6 }
+  let o : Atom := { z := 8 }
+  let s : Bond := { order := 1 }
+  ⟨[(8, c), (6, o), (9, c), (7, c)],
+   [(8, [(7, s), (6, s), (9, s)]), (6, [(8, s)]), (9, [(8, s)]), (7, [(8, s)])]⟩
+
+example : Renumbering (fun x => 10 - x) exMol exMol' ∧ exMol.WF = true ∧ exMol'.WF = true :=
+  ⟨⟨by decide, by decide, by decide⟩, by decide, by decide⟩
+
+/-- **morgan_dict_equivariant** — an atom keeps its neighbourhood identifier of every radius -/
+theorem morgan_dict_equivariant (H : TupleHash) (f : Nat → Nat) (m m' : Mol) (R : Renumbering f m m') (hwf : m.WF = true)
+    (r x : Nat) (hx : x ∈ m.ids) : ecIdent H m' r (f x) = ecIdent H m r x := ren_ecIdent R hwf H r x hx
+
+/-- **morgan_hash_set_equivariant** -/
+theorem morgan_hash_set_equivariant (H : TupleHash) (f : Nat → Nat) (m m' : Mol) (R : Renumbering f m m')
+    (hwf : m.WF = true) (hwf' : m'.WF = true) (lo hi : Int) (h1 : 1 ≤ lo) (h2 : lo ≤ hi) (hs hs' : List Int)
+    (h : morganHashSet H m lo hi = .ok hs) (h' : morganHashSet H m' lo hi = .ok hs') (x : Int) :
+    x ∈ hs' ↔ x ∈ hs := by
+  rw [mem_morganHashSet H m hwf lo hi h1 h2 hs h, mem_morganHashSet H m' hwf' lo hi h1 h2 hs' h']
+  constructor
+  · rintro ⟨r, hr1, hr2, a', ha', rfl⟩
+    obtain ⟨a, ha, rfl⟩ := (ren_mem_ids' R a').mp ha'
+    exact ⟨r, hr1, hr2, a, ha, ren_ecIdent R hwf H r a ha⟩
+  · rintro ⟨r, hr1, hr2, a, ha, rfl⟩
+    exact ⟨r, hr1, hr2, f a, (ren_mem_ids' R _).mpr ⟨a, ha, rfl⟩, (ren_ecIdent R hwf H r a ha).symm⟩
+
+/-- **fragments_equivariant** — both fragment dicts have the same keys with the same multiplicities -/
+theorem fragments_equivariant (H : TupleHash) (f : Nat → Nat) (m m' : Mol) (R : Renumbering f m m')
+    (hwf : m.WF = true) (hwf' : m'.WF = true) (lo hi : Int) (h1 : 1 ≤ lo) (h2 : lo ≤ hi) (d d' : FragDict)
+    (h : fragments H m lo hi = .ok d) (h' : fragments H m' lo hi = .ok d') :
+    (∀ K ps, (K, ps) ∈ d → ∃ ps', (K, ps') ∈ d' ∧ ps'.length = ps.length) ∧
+    (∀ K ps', (K, ps') ∈ d' → ∃ ps, (K, ps) ∈ d ∧ ps.length = ps'.length) := by
+  obtain ⟨cs, hcs, hd⟩ := fragments_eq H m hwf lo hi h1 h2
+  obtain ⟨cs', hcs', hd'⟩ := fragments_eq H m' hwf' lo hi h1 h2
+  rw [hd] at h; cases h
+  rw [hd'] at h'; cases h'
+  have hcount := ren_count R hwf hwf' lo hi h1 h2 H cs cs' hcs hcs'
+  exact ⟨fun K ps hm => dict_transfer H m m' cs cs' hcount K ps hm,
+         fun K ps' hm => dict_transfer H m' m cs' cs (fun K => (hcount K).symm) K ps' hm⟩
+
+/-- **linear_hash_set_equivariant** -/
+theorem linear_hash_set_equivariant (H : TupleHash) (f : Nat → Nat) (m m' : Mol) (R : Renumbering f m m')
+    (hwf : m.WF = true) (hwf' : m'.WF = true) (lo hi nbp : Int) (h1 : 1 ≤ lo) (h2 : lo ≤ hi) (hs hs' : List Int)
+    (h : linearHashSet H m lo hi nbp = .ok hs) (h' : linearHashSet H m' lo hi nbp = .ok hs') (x : Int) :
+    x ∈ hs' ↔ x ∈ hs := by
+  obtain ⟨d, hd, he⟩ := linear_hash_set_exact H m hwf lo hi nbp h1 h2
+  obtain ⟨d', hd', he'⟩ := linear_hash_set_exact H m' hwf' lo hi nbp h1 h2
+  rw [he] at h; cases h
+  rw [he'] at h'; cases h'
+  have ⟨t1, t2⟩ := fragments_equivariant H f m m' R hwf hwf' lo hi h1 h2 d d' hd hd'
+  rw [multiplicity_cap, multiplicity_cap]
+  constructor
+  · rintro ⟨K, ps', hm, cnt, hc1, hc2, rfl⟩
+    obtain ⟨ps, hps, hl⟩ := t2 K ps' hm
+    exact ⟨K, ps, hps, cnt, by omega, hc2, rfl⟩
+  · rintro ⟨K, ps, hm, cnt, hc1, hc2, rfl⟩
+    obtain ⟨ps', hps, hl⟩ := t1 K ps hm
+    exact ⟨K, ps', hps, cnt, by omega, hc2, rfl⟩
+
+example : ∃ hs hs', linearHashSet Py.pyHashTuple exMol 1 3 2 = .ok hs ∧ linearHashSet Py.pyHashTuple exMol' 1 3 2 = .ok hs' ∧
+    hs.length = 9 ∧ ∀ x ∈ hs, x ∈ hs' := ⟨_, _, rfl, rfl, by decide, by decide⟩
+
+/-- the bit set depends on the hash set only through its members -/
+theorem active_bits_of_same_members (length : Nat) (nab : Int) (hs hs' : List Int) (h : ∀ x, x ∈ hs' ↔ x ∈ hs) (b : Nat) :
+    b ∈ activeBits length nab hs' ↔ b ∈ activeBits length nab hs := by
+  rw [active_bits_formula, active_bits_formula]
+  constructor
+  · rintro ⟨x, hx, rest⟩; exact ⟨x, (h x).mp hx, rest⟩
+  · rintro ⟨x, hx, rest⟩; exact ⟨x, (h x).mpr hx, rest⟩
+
+/-- **linear_bit_set_equivariant** / **morgan_bit_set_equivariant** -/
+theorem linear_bit_set_equivariant (H : TupleHash) (f : Nat → Nat) (m m' : Mol) (R : Renumbering f m m')
+    (hwf : m.WF = true) (hwf' : m'.WF = true) (lo hi length nab nbp : Int) (h1 : 1 ≤ lo) (h2 : lo ≤ hi) (bs bs' : List Nat)
+    (h : linearBitSet H m lo hi length nab nbp = .ok bs) (h' : linearBitSet H m' lo hi length nab nbp = .ok bs') (b : Nat) :
+    b ∈ bs' ↔ b ∈ bs := by
+  unfold linearBitSet at h h'
+  by_cases hl : length ≤ 0
+  · simp [hl, bind, Except.bind, throw, throwThe, MonadExceptOf.throw] at h
+  · simp only [hl, if_false, bind, Except.bind, pure, Except.pure] at h h'
+    cases hh : linearHashSet H m lo hi nbp with
+    | error e => simp [hh] at h
+    | ok hs =>
+      cases hh' : linearHashSet H m' lo hi nbp with
+      | error e => simp [hh'] at h'
+      | ok hs' =>
+        simp only [hh] at h
+        simp only [hh'] at h'
+        cases h; cases h'
+        exact active_bits_of_same_members _ _ hs hs'
+          (linear_hash_set_equivariant H f m m' R hwf hwf' lo hi nbp h1 h2 hs hs' hh hh') b
+
+theorem morgan_bit_set_equivariant (H : TupleHash) (f : Nat → Nat) (m m' : Mol) (R : Renumbering f m m')
+    (hwf : m.WF = true) (hwf' : m'.WF = true) (lo hi length nab : Int) (h1 : 1 ≤ lo) (h2 : lo ≤ hi) (bs bs' : List Nat)
+    (h : morganBitSet H m lo hi length nab = .ok bs) (h' : morganBitSet H m' lo hi length nab = .ok bs') (b : Nat) :
+    b ∈ bs' ↔ b ∈ bs := by
+  unfold morganBitSet at h h'
+  by_cases hl : length ≤ 0
+  · simp [hl, bind, Except.bind, throw, throwThe, MonadExceptOf.throw] at h
+  · simp only [hl, if_false, bind, Except.bind, pure, Except.pure] at h h'
+    cases hh : morganHashSet H m lo hi with
+    | error e => simp [hh] at h
+    | ok hs =>
+      cases hh' : morganHashSet H m' lo hi with
+      | error e => simp [hh'] at h'
+      | ok hs' =>
+        simp only [hh] at h
+        simp only [hh'] at h'
+        cases h; cases h'
+        exact active_bits_of_same_members _ _ hs hs'
+          (morgan_hash_set_equivariant H f m m' R hwf hwf' lo hi h1 h2 hs hs' hh hh') b
+
 
 end ChythonModel.Props.C17
